@@ -14,7 +14,9 @@ GenExtra ==
   \cup { <<195, 169, 226, 130, 172, 240, 159, 152, 128>>,    \* e-acute, euro sign, U+1F600
          <<65, 226, 130>>, <<240, 159, 152>>,                  \* truncated sequences
          <<255>>, <<192, 128>>, <<237, 160, 128>>, <<244, 144, 128, 128>> }   \* invalid, overlong, surrogate, > 10FFFF
-GenSizes == {-1, 0, 1, 2, 3, 4, 7, 31, 64, 65, 200, 600}
+(* +-2147483647 stand for math.MaxInt / math.MinInt: the harness passes those to Next, Truncate, *)
+(* ReWrite and as the writer's count; to the model they are just "larger than any length"       *)
+GenSizes == {-2147483647, -1, 0, 1, 2, 3, 4, 7, 31, 64, 65, 200, 600, 2147483647}
 GenRunes == {-2147483647, -191, -1, 0, 65, 127, 128, 233, 2047, 2048, 8364, 55295, 55296, 57343, 57344,
              65533, 65535, 65536, 128512, 1114111, 1114112, 2147483647}
 
@@ -25,7 +27,8 @@ VARIABLE nextop
 Tickets == << "write", "write", "write", "wstr", "wstr", "wbyte", "wrune", "wrune",
               "read", "read", "read", "next", "next", "rbyte", "rbyte", "rrune", "rrune", "rrune",
               "unbyte", "unbyte", "unrune", "unrune", "trunc", "reset", "grow", "grow", "growhuge",
-              "readfrom", "writeto", "len", "bytes", "string", "nilstr", "rewrite", "rewrite" >>
+              "readfrom", "readfrom", "writeto", "writeto", "len", "bytes", "string", "nilstr", "rewrite", "rewrite",
+              "poke", "pipefrom", "pipeto" >>
 GenInit == Init /\ nextop = 0
 GenNext ==
   \/ /\ nextop = 0
